@@ -249,6 +249,8 @@ func c18SchemaEval(tier string, i int) CaseResult {
 
 func c18Public[T any](style int) *mcp.Tool {
 	switch style {
+	case 3: // no style option at all: the default (inline) style through its own entry point
+		return mcp.NewTool("t", mcp.WithInputStruct[T](), mcp.WithOutputStruct[T]())
 	case 0:
 		return mcp.NewTool("t", mcp.WithInputStruct[T](mcp.WithInlineStyle()), mcp.WithOutputStruct[T](mcp.WithInlineStyle()))
 	case 1:
@@ -276,11 +278,17 @@ var c18PublicTools = []struct {
 
 // stripAddrs removes the run-dependent addresses the $defs generator puts into names of anonymous types.
 func c18HookEval(tier string, i int) CaseResult {
-	pt := c18PublicTools[i/3]
-	style := i % 3
-	cr := CaseResult{Desc: fmt.Sprintf("WithInputStruct[%s](%s) vs VerifSchemaForType", pt.name, c18Styles[style]), Nontrivial: true}
+	pt := c18PublicTools[i/4]
+	style := i % 4
+	styleName := "default(no option)"
+	genStyle := 0
+	if style < 3 {
+		styleName, genStyle = c18Styles[style], style
+	}
+	cr := CaseResult{Desc: fmt.Sprintf("WithInputStruct[%s](%s) vs VerifSchemaForType", pt.name, styleName), Nontrivial: true}
 	// another tool is declared from the same struct type first and extended with builder options (a
 	// pagination cursor, say): what one tool adds to its schema is no business of the next one
+	base := hx.CanonOf(pt.mk(style).InputSchema) // the schema of the type before anybody touched a tool built from it
 	other := pt.mk(style)
 	mcp.WithString("cursor", mcp.Required(), mcp.Description("added by the other tool"))(other)
 	mcp.WithNumber("limit")(other)
@@ -288,11 +296,21 @@ func c18HookEval(tier string, i int) CaseResult {
 	pub := hx.CanonOf(tool.InputSchema)
 	pubOut := hx.CanonOf(tool.OutputSchema)
 	if strings.Contains(pub, `"cursor"`) || strings.Contains(pubOut, `"cursor"`) || strings.Contains(pub, `"limit"`) {
-		cr.Violations = append(cr.Violations, V("schema-shared-between-tools:"+c18Styles[style], "%s: a second tool declared from the same struct type carries the parameters another tool added to its own schema with builder options: %s", cr.Desc, truncate(pub, 300)))
+		cr.Violations = append(cr.Violations, V("schema-shared-between-tools:"+styleName, "%s: a second tool declared from the same struct type carries the parameters another tool added to its own schema with builder options: %s", cr.Desc, truncate(pub, 300)))
 		cr.ObsKey = "shared"
 		return cr
 	}
-	js, fault := c18Generate(pt.t, style)
+	if pub != base {
+		cr.Violations = append(cr.Violations, V("schema-shared-between-tools:"+styleName, "%s: the schema of a tool declared from the struct type changed after another tool of the same type was extended: %s, before %s", cr.Desc, truncate(pub, 200), truncate(base, 200)))
+		cr.ObsKey = "shared"
+		return cr
+	}
+	if style == 3 {
+		// (the default generator has no verification hook of its own: the styles with options are compared below)
+		cr.ObsKey = fmt.Sprintf("default len=%d", len(pub))
+		return cr
+	}
+	js, fault := c18Generate(pt.t, genStyle)
 	if fault != "" {
 		cr.Broken = fault
 		return cr
@@ -580,7 +598,7 @@ func init() {
 	RegisterEnum(&Enum{Name: "c18/schemas", Doc: "every struct type of the grammar (leaves x constructors to the tier's depth x field tag variants), every repeated-occurrence and embedding shape, and a compiled corpus of recursive / generic / standard-library types, x 3 generation styles: termination, $ref resolution, field names vs encoding/json, acceptance of encoding/json's output for fully populated values (python jsonschema, Draft 2020-12)",
 		Count: func(tier string) int { return 3 * len(c18Cases(tier)) }, Eval: c18SchemaEval})
 	RegisterEnum(&Enum{Name: "c18/hook", Doc: "conformance of the run-time hook: WithInputStruct[T]/WithOutputStruct[T] with each style option equals VerifSchemaForType(T, style) on compiled types",
-		Count: func(string) int { return 3 * len(c18PublicTools) }, Eval: c18HookEval})
+		Count: func(string) int { return 4 * len(c18PublicTools) }, Eval: c18HookEval})
 	RegisterEnum(&Enum{Name: "c18/bind", Doc: "typed tool handlers end-to-end on 4 transports: the value the handler receives equals encoding/json's own decoding of the argument bytes the caller sent (3 value variants incl. +-2^53)",
 		Count: func(string) int { return len(c18BindCases) * 3 * len(c18BindModes) }, Eval: c18BindEval})
 	RegisterEnum(&Enum{Name: "c18/list", Doc: "every generated schema registered as a tool's input and output schema and read back with the library client's ListTools (transport rotates over sj, ls, io, ss): raw and re-encoded schemas equal the registered one as JSON",
